@@ -17,6 +17,8 @@ import site; they record and never raise inside dclab)
   temperature vs constant per-event array; per-event array vs the scalar call of that
   event's temperature), ``mm_visc_prop`` E(k eta) = k E(eta), ``mm_flow_prop`` E(k Q) = k E(Q),
   ``mm_rescale`` (A s^2 | V s^3, L s, px s, Q s^3 leaves E unchanged),
+* ``edge_nan_rate`` (post-run): NaN for events on triangle edges / vertices inside the
+  support stays the rare event the don't-care rule describes,
 * ``ds_route``: ``ds["emodulus"]`` of a dict dataset is computed by exactly one observed call
   whose arguments are the dataset's configuration (documented scenarios A, B, C) and whose
   return value is what the user gets.
@@ -50,6 +52,12 @@ ASSUMPTIONS = [
     "tolerance through the local gradient: sliver triangles of height 1e-8 exist)",
     "relative tolerance 1e-9 (5e-6 when the temperature is given in float32: the viscosity "
     "is then computed in single precision, precision is not part of the statement)",
+    "events closer than 1e-12 to a triangle edge / vertex: scipy's point location may pick "
+    "either adjacent triangle depending on where its walk starts (values then agree to "
+    "1e-12 + gradient slack instead of bit-wise) and, about once per 1e5 such points, "
+    "none (NaN inside the support, e.g. the midpoint of rows 479/359 of HE-3D-FEM-22); "
+    "both are properties of the trusted library and not judged, but the NaN rate on "
+    "edges is bounded by the monitor edge_nan_rate (2e-3)",
     "don't care: copy=False, extrapolate=True, numeric medium together with a temperature, "
     "unknown media, medium/model combinations without a documented model, temperatures "
     "for which the documented formula is not finite, LUT arrays that are not float64",
@@ -87,6 +95,23 @@ def min_evals(tier):
 
 
 MIN_EVALS = min_evals("quick")
+
+
+def post(merged):
+    """The don't-care rule 'NaN on a triangle edge / vertex is not judged' must stay a
+    rare event (scipy's point location fails about once per 1e5 such points); a
+    systematic NaN on nodes or edges is a violation."""
+    c = merged["counters"]
+    n_nan = c.get("events_nan_on_triangle_edge_or_vertex_not_judged", 0)
+    n_edge = c.get("events_judged_on_triangle_edge_or_vertex", 0)
+    merged["monitors"]["edge_nan_rate"] = merged["monitors"].get("edge_nan_rate", 0) + 1
+    if n_nan > max(5, 2e-3 * n_edge):
+        merged["violations"].append({
+            "monitor": "edge_nan_rate", "finding": None, "case": None, "shard": -1,
+            "spec": {"kind": "calls", "cases": []},
+            "message": f"{n_nan} of {n_edge} events on triangle edges / vertices inside the "
+                       f"support came back NaN (tolerated rate 2e-3)",
+            "witness": {"nan_on_edges": n_nan, "events_on_edges": n_edge}})
 
 
 def plan(tier, seed):
@@ -287,7 +312,10 @@ def _judge_call(ctx, a, res, exc, model):
     ctx.count("events_ok_via_neighbour_triangle", cnt.get(3, 0))
     ctx.count("events_ok_via_flipped_diagonal", cnt.get(4, 0))
     ctx.count("events_model_gap_not_judged", cnt.get(5, 0))
-    ctx.count("events_nan_on_edge_of_sliver_triangle_not_judged", cnt.get(7, 0))
+    ctx.count("events_nan_on_triangle_edge_or_vertex_not_judged", cnt.get(7, 0))
+    with np.errstate(invalid="ignore"):
+        ctx.count("events_judged_on_triangle_edge_or_vertex",
+                  int(((ev["edge_dist"] < M.EDGE_BAND) & (ev["cls"] == 0)).sum()))
     ctx.count("events_in_ambiguous_triangles", int(ev["ambiguous"].sum()))
     ctx.count("events_located_by_brute_force", int((ev["located_by"] == 2).sum()))
     ctx.count(f"route[{route}]")
@@ -671,7 +699,7 @@ def _law_exact(ctx, mon, got, want, desc, what, soft=None, nev=None):
                                     f"({int(ne.sum())} events differ)")
 
 
-def _law_close(ctx, mon, got, want, rtol, slack, loose, desc, what):
+def _law_close(ctx, mon, got, want, rtol, slack, loose, desc, what, nan_free=None):
     """Law up to rounding: same NaN pattern and |got - want| <= rtol*|want| + slack for all
     events that are not `loose` (hull band / ambiguous quad / no model triangle)."""
     from vmon.model import c05_lut as M
@@ -686,6 +714,9 @@ def _law_close(ctx, mon, got, want, rtol, slack, loose, desc, what):
                                 shape_want=list(want.shape)), message=f"{what}: shapes differ")
         return
     judged = ~loose
+    if nan_free is not None:
+        # NaN-ness of events on a triangle edge / vertex is not judged
+        judged = judged & ~(nan_free & (np.isnan(got) | np.isnan(want)))
     ctx.ev(mon, max(int(judged.sum()), 1))
     ctx.count(f"law_events_not_judged_band_or_ambiguous[{mon}]", int(loose.sum()))
     ok = M.isclose_rel(got, want, rtol, slack)
@@ -842,7 +873,7 @@ def run_direct(ctx, idx):
         with np.errstate(invalid="ignore"):
             on_edge = ~(ev["edge_dist"] >= M.EDGE_BAND) & (ev["cls"] < 2)
         soft = loose | on_edge
-        nan_free = loose | (on_edge & (ev["hmin_nbhd"] < M.SLIVER_H))
+        nan_free = loose | on_edge
         slack_soft = 8 * M.POS_DELTA * ev["grad1_nbhd"] * np.abs(
             np.where(np.isfinite(j0["scale"]), j0["scale"], 0.0))
         ctx.count("events_on_triangle_edge_or_vertex", int((soft & ~loose).sum()))
@@ -855,8 +886,8 @@ def run_direct(ctx, idx):
             want = lut.values[node[i]] * j0["scale"][i]
             if not np.isfinite(want):
                 continue
-            if np.isnan(got[i]) and ev["cls"][i] == 1:
-                ctx.count("node_on_hull_nan_not_judged")
+            if np.isnan(got[i]) and (ev["cls"][i] == 1 or v[i] == 7):
+                ctx.count("node_on_hull_or_unlocated_nan_not_judged")
                 continue
             tol = M.RTOL * abs(want) + 50 * M.POS_DELTA * lut.node_grad1[node[i]] \
                 * abs(j0["scale"][i])
@@ -975,7 +1006,8 @@ def run_direct(ctx, idx):
                 lo[:] = True
             rt = max(1e-10, 20 * (j0["rtol"] if j0 is not None and j0["rtol"] > M.RTOL else 0))
             _law_close(ctx, "mm_rescale", e1, e0, rt, slack, lo, dict(desc, s=s),
-                       f"joint rescaling by s={s} ({xkey}*s^{lut.power}, L*s, px*s, Q*s^3)")
+                       f"joint rescaling by s={s} ({xkey}*s^{lut.power}, L*s, px*s, Q*s^3)",
+                       nan_free=nan_free)
         elif law == "visc":
             k = float(rng.choice([0.5, 2.0, 3.0, 1.7, 10.0, 0.1]))
             e1, _ = _call(ctx, dict(base, medium=float(base["medium"]) * k))
@@ -999,7 +1031,8 @@ def run_direct(ctx, idx):
                 else:
                     lo[:] = True
                 _law_close(ctx, "mm_temp_route", e1, e0, rt, slack, lo, desc,
-                           "scalar temperature vs constant per-event temperature array")
+                           "scalar temperature vs constant per-event temperature array",
+                           nan_free=nan_free)
             else:
                 for i in rng.choice(n, size=min(n, 2), replace=False):
                     ti = flat_t[i]
@@ -1014,7 +1047,7 @@ def run_direct(ctx, idx):
                     _law_close(ctx, "mm_temp_route", e1, e0, rt, slack, lo,
                                dict(desc, event=int(i), T_i=float(ti)),
                                "per-event temperature array vs scalar call with that "
-                               "event's temperature")
+                               "event's temperature", nan_free=nan_free)
         elif law == "other_lut":
             # a call on another table in between ("earlier calls")
             arg2, lut2, _ = build_lut(ctx, rng, idx) if rng.random() < 0.4 else \
